@@ -568,17 +568,18 @@ Section Stmt.
     | Crash w => (Some (Crash w), None)
     end.
 
-  (* evalWhileLoopStmt; [j] bounds the number of passes *)
-  Fixpoint while_loop (body : state -> res val) (c : expr) (j : nat) (st : state) : res val :=
+  (* evalWhileLoopStmt; [j] bounds the number of passes; [l] is the line of the 每当 statement: the condition is
+     evaluated at that line on every pass (a fault in it is reported there, not at the last statement of the body) *)
+  Fixpoint while_loop (body : state -> res val) (c : expr) (l : Z) (j : nat) (st : state) : res val :=
     match j with
     | O => Fuel
     | S j' =>
-      let! (cv, s1) := ev st c in
+      let! (cv, s1) := ev (set_line st l) c in
       match cv with
       | VBool true =>
         match after_pass (body s1) with
         | (Some r, _) => r
-        | (None, Some s2) => while_loop body c j' s2
+        | (None, Some s2) => while_loop body c l j' s2
         | (None, None) => Crash 8
         end
       | VBool false => Ok VNull s1
@@ -683,7 +684,7 @@ Section Stmt.
     | S k' =>
       match s with
       | SDecl pairs => decl_pairs k' pairs st
-      | SWhile c body => while_loop (fun s1 => exec_block k' s1 body) c k' st
+      | SWhile c body => while_loop (fun s1 => exec_block k' s1 body) c (cur_line st) k' st
       | SBranch c t others els =>
         let! (cv, s1) := ev st c in
         match cv with
